@@ -503,6 +503,52 @@ theorem C18_operand_relabel_witness : ¬ EditStatement (fun _ => True) (labelSco
   revert h2
   decide
 
+/-! ### who the operator is written on, and where -/
+
+/-- **every operator yields a node**: whatever the operator (unary plus included) and the state, the expression is
+handed a node, and inside a parent that node is the child stored under the expression's label -/
+theorem C18_yields_node (H : Key → String) (p : Printer) (st : St) (par : Nat) (d : Dunder) (owner : Nat)
+    (slabel : String) (ops : List Operand) (hwf : WF st) :
+    let e : Expr := ⟨owner, slabel, dispatch d, ops⟩
+    let r := inject H p st (some par) e
+    (r.1.children par).lookup (label H p e) = some r.2 ∧ r.2 < r.1.next := by
+  intro e r
+  have hl := inject_lookup_self H p st par e
+  exact ⟨hl, (inject_WF H p st (some par) e hwf par).2.2 _ (lookup_mem _ _ _ hl)⟩
+
+/-- handing the operand back instead (for `+x`) is NOT what Python means, for some interpretation of `+` -/
+theorem C18_identity_shortcut_witness : ∃ (py : Py Int Int) (v : Int), exprValue py .pos v [] ≠ v :=
+  ⟨⟨fun op xs => match op, xs with | .pos, [a] => a + 1 | _, _ => 0⟩, 0, by decide⟩
+
+/-- channels and single-output function nodes hand EVERY operator over to the channel unchanged (the plain-named
+`eq`, `bool`, `len`, `contains`, `int`, `float` included), composites all but attribute and item access -/
+theorem C18_value_delegated (repaired : Bool) (k : OwnerKind) (d : Dunder)
+    (h : k ≠ .composite ∨ (d ≠ .getattr ∧ d ≠ .getitem) ∨ repaired = true) : delegate repaired k d = some d := by
+  cases k <;> cases d <;> simp_all [delegate]
+
+/-- the statement "an operator on a single-output node is the operator on its output" -/
+def DelegationStatement (repaired : Bool) : Prop := ∀ k d, delegate repaired k d = some d
+
+/-- FALSE on /repo for composites (KF-C18-5): `macro.real`, `macro[0]` are taken for child access -/
+theorem C18_composite_access_witness : ¬ DelegationStatement false ∧ DelegationStatement true :=
+  ⟨fun h => by have := h .composite .getitem; simp [delegate] at this,
+   fun k d => by cases k <;> cases d <;> rfl⟩
+
+/-- **an argument used twice by one expression stays connected twice** (`x * x`, `x[x]` inside a graph creator):
+with the rule of /repo every input that was connected to the argument's stand-in still receives the argument
+after the single-use stand-ins are purged -/
+theorem C18_purge_feeds_all (cs : List (Nat × Nat)) : purgeFed .byConnections cs = cs := by
+  unfold purgeFed
+  by_cases h : cs.length ≤ 1
+  · simp only [h, decide_true, if_true]
+    match cs, h with
+    | [], _ => rfl
+    | [_], _ => rfl
+  · simp [h]
+
+/-- counting distinct consumer NODES instead loses the second operand of `x * x` -/
+theorem C18_purge_by_consumers_witness : purgeFed .byConsumers [(7, 0), (7, 1)] = [(7, 0)] := by decide
+
 /-! ## Non-vacuity -/
 
 /-- a toy hash that separates the keys below -/
@@ -540,6 +586,11 @@ example :
     let after := runSteps (labelScoped spellH) 0 wWorld first.1 [.edit relabelRoot, .write wNK, .edit relabelRoot]
     (injectL (labelScoped spellH after.1) after.2 (some 0) wMul2).2 = first.2 ∧ (after.2.children 0).length = 2 := by
   decide
+example : purgeFed .byConnections [(7, 0), (7, 1)] = [(7, 0), (7, 1)] ∧ purgeFed .byConnections [(7, 0)] = [(7, 0)] := by
+  decide
+example : delegate false .funcNode .len = some .len ∧ delegate false .composite .len = some .len ∧
+    delegate false .composite .getattr = none := by decide
+example : (inject exH .repaired emptySt (some 0) ⟨0, "a__user_input", dispatch .pos, []⟩).2 = 0 := by decide
 example : ClosedSlice (some 1) (some 4) (none : Option Nat) ∧ ¬ ClosedSlice (some 1) none (none : Option Nat) := by
   simp [ClosedSlice]
 /-- `x[c:]` inside a parent on the strict node: the expression raises and nothing is left behind -/
@@ -612,3 +663,9 @@ end PwVerif.C18
 #print axioms PwVerif.C18.C18_all_edits_ident
 #print axioms PwVerif.C18.C18_path_edits_full_witness
 #print axioms PwVerif.C18.C18_operand_relabel_witness
+#print axioms PwVerif.C18.C18_yields_node
+#print axioms PwVerif.C18.C18_identity_shortcut_witness
+#print axioms PwVerif.C18.C18_value_delegated
+#print axioms PwVerif.C18.C18_composite_access_witness
+#print axioms PwVerif.C18.C18_purge_feeds_all
+#print axioms PwVerif.C18.C18_purge_by_consumers_witness
